@@ -238,6 +238,18 @@ strings, so every unknown reason takes the generic branch the model has (`r ≠ 
 theorem received_enumerations_total :
     ∀ c ∈ Generated.VamEnums.rxEnumConversions, c.2.2 = [] := by decide
 
+/-- RECEIVED CHOICES ARE READ BY THE ALTERNATIVE PRESENT (round 5; regenerated from the source on every run by
+`harness/gen_vru.py rx_choice_subscripts`).  A decoded CHOICE holds exactly one alternative; wherever the receive path
+(the methods reachable from `on_received_vam`) subscripts received data by the NAME of a CHOICE alternative of the VAM
+(`<x>["circular"]`), that very key was tested first - so a legal VAM carrying another alternative (a rectangular or
+polygonal `clusterBoundingBoxShape` from another vendor's leader) cannot raise KeyError and be dropped as 'malformed'
+after the nearby-VRU table (seeded change C18-m8: the `"circular" in bbox` guard lost in a tidy-up).  The shape CHOICE of
+the repository's ASN.1 module has `circular` and at least one other alternative. -/
+theorem received_choice_subscripts_guarded :
+    Generated.VamEnums.rxUnguardedChoiceSubscripts = [] ∧
+    "circular" ∈ Generated.VamEnums.boundingBoxShapes ∧ "rectangular" ∈ Generated.VamEnums.boundingBoxShapes ∧
+    "polygonal" ∈ Generated.VamEnums.boundingBoxShapes := by decide
+
 /-- the reason numbers of the model are those of the repository's ASN.1 table, the Python enums list ASN.1
 identifiers only, and the numbers of the break-up table are pairwise different (a number identifies the reason) -/
 theorem reason_tables :
@@ -427,6 +439,33 @@ theorem join_completes {var : Variant} (ht : var.tupleFails = false) {s : St} (h
     · rw [h1]; rfl
   have g5 : s'.leaveNotify = false := by rw [f5, h1]; simpa [completeJoin, recvVrus] using hnl
   exact ⟨g1, g2, g3, g4, by simp [clusterId, g1, g2], by simp [shouldTransmit, g1, g5]⟩
+
+/-- JOIN, EVERY BOUNDING-BOX SHAPE THE DECODER CAN DELIVER (round 5).  The advertised cluster carries ANY alternative of
+the `clusterBoundingBoxShape` CHOICE of the repository's ASN.1 module (`Generated.VamEnums.boundingBoxShapes`: FlexStack's
+own leaders send `circular`, other vendors' may send `rectangular`, `polygonal`, …): the waiting station becomes a
+silent member of the cluster led by the sender, timer armed now.  (Heartbeat - `leader_not_lost_early`,
+`heartbeat_only_cluster_vam` - and break-up - `breakup_frees_every_asn1_reason` - do not mention the shape at all.) -/
+theorem join_completes_every_bounding_box_shape {var : Variant} (ht : var.tupleFails = false) {s : St}
+    (hr : Reachable var s) (alt : String) (_halt : alt ∈ Generated.VamEnums.boundingBoxShapes)
+    {v : Vam} {i : Info} {cid : Nat}
+    (hs : s.state = .standalone) (hw : s.joinSub = .waiting) (htg : s.joinTarget = some cid)
+    (hi : v.info = some i) (_hsh : i.shape = Shape.ofAlternative alt) (hc : i.cid.getD 0 = cid)
+    (hb : ∀ o, v.op = some o → o.breakup = none) :
+    let s' := recv var s v
+    s'.state = .passive ∧ s'.joined = some cid ∧ s'.leader = some v.sender ∧ s'.last = some s.now ∧
+      clusterId s' = some cid ∧ shouldTransmit s' = false :=
+  join_completes ht hr hs hw htg hi hc hb
+
+/-- non-vacuity: a waiting station (join towards cluster 9 requested, notification time over) hears cluster 9 advertised
+by station 21 with every alternative of the shape CHOICE: passive towards 9, led by 21, silent - and the cluster is in
+its table of nearby clusters -/
+example :
+    ∀ alt ∈ Generated.VamEnums.boundingBoxShapes,
+      let s := run {} (St.init 1000000 128) [.initiateJoin 9, .tick 3000, .update, .tick 50]
+      let s' := recv {} s { sender := 21, x := 300, y := 0,
+                            info := some { cid := some 9, card := 2, shape := Shape.ofAlternative alt }, op := none }
+      s.joinSub = .waiting ∧ s'.state = .passive ∧ s'.joined = some 9 ∧ s'.leader = some 21 ∧
+        s'.clusters.map (·.cid) = [9] := by decide
 
 /-- Before fix C18-F1 (`tupleFails := true`) a decoded cluster VAM with the circular bounding box every leader
 sends was dropped after the nearby-VRU table: nothing else changes, so no join ever completed -/
